@@ -160,6 +160,7 @@ inductive FEv where
   | success (dest : Nat) (v : Val)              -- on_success event to destination `dest`: trigger='success', value=v
   | error (dest : Nat) (e : Nat)                -- on_error event: trigger='error', error=e
   | superStop                                   -- `super().stop()`
+  | output (b : Bool)                           -- `set_output(b)`
   deriving DecidableEq, Repr
 
 /-- what `_event_put` returns / raises -/
@@ -208,6 +209,9 @@ def eventPut (cfg : FuncCfg) (f : Func) (log : List FEv) (data : Data) : List FE
       match f args kwargs with
       | .error e => (log ++ [.call args kwargs] ++ (List.range cfg.nError).map (fun d => .error d e), .error e)
       | .ok v => (log ++ [.call args kwargs] ++ (List.range cfg.nSuccess).map (fun d => .success d v), .result v)
+
+/-- `init_regular`: the output of an OutputFunc is always False -/
+def initRegular (log : List FEv) : List FEv := log ++ [.output false]
 
 /-- `stop()`: stop_data, if any, is delivered like an event -- the last call of the function --, then `super().stop()`;
     a KeyError of that delivery propagates and `super().stop()` is not reached -/
